@@ -198,3 +198,25 @@ def shape_family(n):
                     fam.append(('tree%d_%d/%s' % (n, si, lab), A))
         _FAM[n] = fam
     return _FAM[n]
+
+
+def shape_orders(n):
+    """[(shape index, base matrix (node v at index v), [(label, perm)])]: perm[k] = the node of the base matrix that
+    sits at index k of the renumbered matrix, i.e. renumbered = base[ix_(perm, perm)]; distinct matrices only."""
+    out = []
+    for si, adj in enumerate(shapes(n)):
+        A = np.zeros((n, n))
+        for v in range(n):
+            for w in adj[v]:
+                A[v, w] = 1.0
+        seen = {A.tobytes()}
+        perms = []
+        for lab, order in scan_orders(adj):
+            p = np.array(order)
+            B = A[np.ix_(p, p)]
+            key = B.tobytes()
+            if key not in seen:
+                seen.add(key)
+                perms.append((lab, p))
+        out.append((si, A, perms))
+    return out
